@@ -201,6 +201,33 @@ class Driver:
         self.c('imp_refl')
         return self.call('modus_ponens', m1, s1b)
 
+    def pending_then_binder(self):
+        """a schema instantiated with a pending substitution phi_k[plug/v]; then phi_k instantiated with an exists-pattern. When the
+        binder is a variable free in the plug the machine refuses to push the plug under it whether or not v occurs below (its capture
+        check comes first), so the tracker has to refuse as well; with any other binder both accept and agree on the result"""
+        rng = self.rng
+        P = self.P
+        k = rng.choice((1, 2)); x = rng.choice((0, 1, 2)); kind = rng.choice('es'); v = rng.choice((0, 1))
+        if kind == 'e' and v == x:
+            v = (x + 1) % 3
+        plug_e = rng.choice((tb.ev(x), tb.ap(tb.sy('a'), tb.ev(x))))
+        pend_e = (tb.es if kind == 'e' else tb.ss)(tb.mv(k), v, plug_e)
+        binder = rng.choice((x, x, (x + 1) % 3))
+        var_e = tb.ev(v) if kind == 'e' else tb.sv(v)
+        body = rng.choice((var_e, tb.ap(tb.sy('b'), var_e), tb.sy('b'), tb.ev(binder), tb.ap(tb.sy('b'), tb.ev(binder))))
+        q_e = tb.ex(binder, body)
+        q = self.it.pattern(tb.to_repo(q_e, P))          # (plugs go below the proved term they are plugged into)
+        self.journal.append(('pattern', (q,)))
+        pend = self.it.pattern(tb.to_repo(pend_e, P))
+        self.journal.append(('pattern', (pend,)))
+        t1 = self.call('instantiate', self.call('prop1'), {0: pend})
+        self.c('pending_then_binder')
+        if binder == x and not (kind == 'e' and binder == v):
+            self.c('pending_then_binder:binder_free_in_plug')
+            if var_e not in (body, body[2] if body[0] == 'ap' else None):
+                self.c('pending_then_binder:nothing_to_substitute_below')
+        return self.call('instantiate', t1, {k: q})
+
     def twins(self):
         """two nodes over the SAME notation definition whose maps are keyed differently (same values under other keys, or a partial
         map), both saved; then the later one is loaded: the Load must address the slot that holds it"""
